@@ -28,6 +28,7 @@ import (
 	"github.com/restic/restic/internal/verifshim/gatebe"
 	"github.com/restic/restic/internal/verifshim/oracle"
 	"github.com/restic/restic/internal/verifshim/vh"
+	"github.com/restic/restic/internal/verifshim/xplore"
 )
 
 type verifC29Op struct {
@@ -354,4 +355,11 @@ func TestVerif_C29(t *testing.T) {
 	}
 	r.Extra("history_length_bound", maxLen)
 	r.Extra("deviation_bound", bound)
+}
+
+// TestVerifRace_C29 runs every scenario body free (gates answer at once, no oracle) under the race detector.
+func TestVerifRace_C29(t *testing.T) {
+	xplore.Free = 2
+	defer func() { xplore.Free = 0 }()
+	TestVerif_C29(t)
 }
